@@ -122,6 +122,9 @@ public:
     return f(args...);
   }
 
+  // harness use only: give the address slot back even when destroy_sandbox could not run
+  void force_release() { if (Base != 0) impl_destroy_sandbox(); }
+
 protected:
   inline bool impl_create_sandbox(const vsbx::Library* library = nullptr, bool ok = true, int want_slot = -1)
   {
